@@ -37,7 +37,8 @@ StageFacts == /\ Is("stage") /\ "facts" \in DOMAIN Ev /\ Ev.ok
               /\ (Missing(Ev.name, SetOf(Ev.facts)) # {} => Say("DIFF", Ev.t, [stage |-> Ev.name, missing |-> Missing(Ev.name, SetOf(Ev.facts))]))
               /\ Adv
 \* an event out of stage order is a harness or specification error, never a verdict about the code
-Normal == Begin \/ StagePlain \/ StageFacts
+EvWritten == Is("written") /\ Written(Ev.ok, Ev.same) /\ Adv
+Normal == Begin \/ StagePlain \/ StageFacts \/ EvWritten
 Other == Is("note") \/ Is("unjudged") \/ Is("fatal")
 Skip == l <= Len(Trace) /\ ((Other /\ UNCHANGED vars /\ Adv) \/ (~Other /\ ~ENABLED Normal /\ Say("REJECT", Ev.t, Ev.e) /\ UNCHANGED vars /\ Adv))
 End == l = Len(Trace) + 1 /\ Report /\ UNCHANGED vars /\ l' = l + 1
